@@ -14,14 +14,15 @@ from ..callgraph import CallGraph
 from ..selftest import Seed
 
 META = {
-    "technique": "type-flow of deferred nodes over the resolved call graph (source: literal reader, sanitiser: evaluation, sink: system functions returning reader output as data); writer/reader delimiter table agreement",
+    "technique": "type-flow of deferred nodes over the resolved call graph (source: literal reader, sanitiser: evaluation, sink: system functions returning reader output as data); writer/reader delimiter table agreement, reader entry-point argument flow, token-form table agreement, format-spec precision rule of the real writer, identity rule of string Form",
     "level_text": "Static decision of one necessary condition of the round trip: which reader-derived values can leave .rs/.r as data without being evaluated. It finds the defect the property text itself reports (a written dictionary reads back as a function-call object) from the code shape; value-level round-tripping is declared out of reach for static analysis.",
     "level_note": "decides the narrow structural clause below from source; does not decide the behaviour (round-trip equality over all values is not decided by any rule here). Trusted: a value is 'deferred' iff it is the KGCall built in the reader's dictionary branch.",
     "explanation": (
         "Static analysis of klongpy/parser.py, sys_fn.py, writer.py: the reader functions that can return the deferred dictionary node are "
         "computed as a fixpoint over return statements (kg_read's ':{' branch -> read_list elements -> kg_read_array); every system function "
         "whose return value is such a reader result, unevaluated, is a sink. The writer's dictionary delimiters ':{' '}' and pair form are "
-        "compared with the reader's dictionary branch. Round-trip equality of values is not decided."),
+        "compared with the reader's dictionary branch. Round-trip equality of values is not decided."
+        " R3/R4: the reader entry points pass the text unmodified with the same options and the writer's token forms agree with the reader's dispatch; R5: the real writer uses str/repr or >=17 significant digits; R6: every return of the scalar Form reachable for a string target returns the text itself."),
     "assumptions": ["reader results are 'data' when returned from a system function without passing through klong.call/eval"],
 }
 
